@@ -75,7 +75,9 @@ type c16View struct {
 	pools      [][3]*big.Int
 	swapShares [][]*big.Int // [actor][pool]
 	earn       [][]*big.Int // [actor][denom] share mantissas
+	earnVal    [][]*big.Int // [actor][denom] value of the shares in coins (generator only)
 	bank       [][]*big.Int // [actor][bankDenoms]
+	exist      []bool       // x/auth has an account for the actor
 	unknown    []string     // records held by addresses that are not actors
 }
 
@@ -263,14 +265,24 @@ func (w *c16World) view(ctx sdk.Context) *c16View {
 	}
 	// earn
 	v.earn = grid(w.nacc, len(c16Denoms))
-	for _, r := range t.GetEarnKeeper().GetAllVaultShareRecords(ctx) {
+	v.earnVal = grid(w.nacc, len(c16Denoms))
+	ek := t.GetEarnKeeper()
+	for _, r := range ek.GetAllVaultShareRecords(ctx) {
 		if a := note("earn-depositor", r.Depositor); a >= 0 {
 			for _, s := range r.Shares {
 				if di := denomIdx(s.Denom); di >= 0 {
 					v.earn[a][di] = s.Amount.BigInt()
+					if c, err := ek.GetVaultAccountValue(ctx, s.Denom, r.Depositor); err == nil {
+						v.earnVal[a][di] = c.Amount.BigInt()
+					}
 				}
 			}
 		}
+	}
+	// auth
+	ak := t.GetAccountKeeper()
+	for a := 0; a < w.nacc; a++ {
+		v.exist = append(v.exist, ak.GetAccount(ctx, w.addrs[a]) != nil)
 	}
 	// bank
 	v.bank = grid(w.nacc, len(c16BankDenoms))
@@ -306,14 +318,11 @@ func triples(g [][]*big.Int) string {
 
 func (w *c16World) coqEnv() string {
 	macc := make([]bool, w.nacc)
-	exist := make([]bool, w.nacc)
-	ak := w.tApp.GetAccountKeeper()
 	for a := 0; a < w.nacc; a++ {
 		macc[a] = a >= c16NUsers
-		exist[a] = ak.GetAccount(w.ctx, w.addrs[a]) != nil
 	}
-	return fmt.Sprintf("(mk_env %s %s %s %s %s %s %s %s %s %s)", Nat(w.nacc), Nat(c16NUsers), Zi(w.ctx.BlockTime().Unix()),
-		BoolList(macc), BoolList(exist), Nat(w.gov), Nat(len(c16Denoms)), Nat(len(c16Pools)), Nat(w.earn), natList(c16EarnStrat))
+	return fmt.Sprintf("(mk_env %s %s %s %s %s %s %s %s %s)", Nat(w.nacc), Nat(c16NUsers), Zi(w.ctx.BlockTime().Unix()),
+		BoolList(macc), Nat(w.gov), Nat(len(c16Denoms)), Nat(len(c16Pools)), Nat(w.earn), natList(c16EarnStrat))
 }
 
 func (v *c16View) coqState() string {
@@ -375,6 +384,7 @@ func (v *c16View) coqState() string {
 		fmt.Sprintf("(%s, %s, %s)", Z(v.cparams[0]), Z(v.cparams[1]), Z(v.cparams[2])),
 		List(cds), Nat(v.nextCdp), List(cdeps),
 		triples(v.hard), triples(v.sav), List(pools), triples(v.swapShares), triples(v.earn),
+		BoolList(v.exist),
 	}
 	return "(mk_state " + strings.Join(parts, "\n    ") + ")"
 }
